@@ -496,6 +496,13 @@ func ApplyOverlapToChunks(chunks []*Chunk, config OverlapConfig) []*ChunkWithOve
 	generator := NewOverlapGeneratorWithConfig(config)
 	result := make([]*ChunkWithOverlap, len(chunks))
 
+	// Remember each chunk's own text: the loop below rewrites chunk.Text in place, and
+	// overlap must come from the previous chunk's own content, not from its overlap prefix.
+	ownTexts := make([]string, len(chunks))
+	for i, chunk := range chunks {
+		ownTexts[i] = chunk.Text
+	}
+
 	for i, chunk := range chunks {
 		result[i] = &ChunkWithOverlap{
 			Chunk: chunk,
@@ -503,8 +510,7 @@ func ApplyOverlapToChunks(chunks []*Chunk, config OverlapConfig) []*ChunkWithOve
 
 		if i > 0 && config.Strategy != OverlapNone {
 			// Generate overlap from previous chunk
-			prevChunk := chunks[i-1]
-			overlap := generator.GenerateOverlap(prevChunk.Text)
+			overlap := generator.GenerateOverlap(ownTexts[i-1])
 
 			if overlap.Text != "" {
 				result[i].OverlapPrefix = overlap.Text
